@@ -8,7 +8,7 @@ CONSTANTS
   MaxForeign = 0
   AllowTimeout = TRUE
   OblTruthful = TRUE
-  OblLockCover = TRUE
+  OblLockCover = FALSE
   OblDirtyRefused = TRUE
   OblIdempotent = TRUE
   OblFence = TRUE
